@@ -48,6 +48,7 @@ def mkOnErr (j : Json) : Option OnErr :=
 
 def mkFieldDecl (j : Json) : FieldDecl V :=
   { attname := nat! (fld j "attname")
+    ty := optNat (fld j "ty")
     alias := optNat (fld j "alias")
     aliasFrom := nats (fld j "alias_from")
     ci := optBool (fld j "ci")
@@ -140,7 +141,8 @@ def handle (j : Json) : Json :=
     ("df_st", stJ df), ("ff_st", stJ ff),
     ("spec", Json.mkObj [("result", dictJ sp.result), ("errs", Json.arr (sp.errs.map errJ).toArray),
       ("mapping", dictJ (Spec.mappingView W P o sp.result)), ("attrs", dictJ (Spec.attrView P sp.result))]),
-    ("fields", Json.arr (P.fields.map fun kf => Json.mkObj [("key", Json.num kf.1), ("name", Json.num kf.2.name),
+    ("fields", Json.arr (P.fields.map fun kf => Json.mkObj [("key", Json.num kf.1), ("name", Json.num kf.2.name), ("attname", Json.num kf.2.attname),
+       ("ty", match kf.2.ty with | some t => Json.num t | none => Json.null),
        ("all", natsJ kf.2.allAliases), ("deps", natsJ kf.2.deps)]).toArray)]
 
 def main : IO Unit := serve handle
